@@ -84,7 +84,8 @@ CLAIMED = {
             "with the cvxpy back-end on the same TLC-generated programs (SolveTrace.tla)",
             "Every Task call of the wrapper is recorded and replayed by TLC through a state-machine model of the MOSEK task; "
             "each row must denote the sent item, each multiplier must be read from that item's row / matrix variable with "
-            "the documented sign, values and constraint lists must agree with the cvxpy path.",
+            "the documented sign, values and constraint lists must agree with the cvxpy path, and the wrapper's own "
+            "accessor of the multipliers must agree with the objects' multipliers.",
             "MOSEK is not installed: a stand-in module (harness/fake/mosek) implements the documented conventions and solves "
             "the recorded SDP with cvxpy+CLARABEL; real MOSEK behaviour is an assumption.",
             "6.11"),
@@ -130,8 +131,10 @@ CLAIMED = {
             "6.15"),
     "C16": ("TLC model checking of spec/Access.tla (scenario x object kind x accessor; invalid option values) + replay on the "
             "real library + TLC trace validation of every outcome (AccessTrace.tla)",
-            "Every access sequence of bounded length in every scenario (fresh, three unbounded and three infeasible models, "
-            "objects of a new model after another was solved) must raise the documented ValueError, solve must return None "
+            "Every access sequence of bounded length in every scenario (fresh, four unbounded and four infeasible models - among "
+            "them a model without metric and a condition that prunes to a constant -, objects of a new model after another "
+            "was solved; points, expressions, constraints, LMIs, zero-weight objects and the function's tables of "
+            "multipliers) must raise the documented ValueError, solve must return None "
             "on models without finite optimum, invalid option values must end in an error; all enumerated by TLC and run.",
             "TLC 1.8; CLARABEL's infeasibility / unboundedness detection.",
             "6.16"),
@@ -149,7 +152,8 @@ EXPLORATION = {
             "inside the documented ranges + the real examples run at every grid point + TLC clause-by-clause comparison",
             "The property compares floating-point numbers over continuous ranges: the model checker contributes the oracle "
             "(closed forms and validity ranges transcribed from the docstrings) and the grid; the real examples and the "
-            "complexified variants are run with cvxpy+CLARABEL and compared by TLC. A finite grid and one back-end: "
+            "complexified variants are run with cvxpy+CLARABEL and compared by TLC (computed value against the docstring's "
+            "closed form AND against the example's own returned value). A finite grid and one back-end: "
             "exploration, not a decision.",
             "TLC 1.8; hand transcription of 72 docstring rates; MOSEK absent (cvxpy back-end only).",
             "6.10"),
